@@ -6,6 +6,7 @@ import numpy as np
 from ..core import guarded
 from ..gens import spectra as gs
 from ..monitors import spectrum as ms
+from ..monitors import history as hist
 from ..oracles import spectral as osp
 from .c01 import bands
 
@@ -188,6 +189,13 @@ def make_2d_uniform(rng):
     return c
 
 
+def history_io(c):
+    reads = hist.reads_from(c, banded=("mean_direction", "mean_directional_spread", "mean_a1", "mean_b1", "mean_a2", "mean_b2",
+                                       "peak_direction", "peak_directional_spread"),
+                            plain=("mean_direction_per_frequency", "mean_spread_per_frequency"))
+    return reads, hist.spectrum_mods(c, with_depth=False)
+
+
 def run_shard(ctx, shard):
     if shard.get("repo_tests"):
         from ..core import run_repo_tests_under_contracts
@@ -212,11 +220,14 @@ def run_shard(ctx, shard):
             c["_sub"] = sub
             c["_mode"] = "def"
             definitions(ctx, c, np.random.default_rng(sub))
+            if "nankind" not in c or c.get("nankind") != "nan-moments":
+                hist.judge_history(ctx, "C03", c, np.random.default_rng(sub + 7), *history_io(c))
         elif which == 1:
             c = gs.case_2d(rng, allow_zero=False)
             c["_sub"] = sub
             c["_mode"] = "def"
             definitions(ctx, c, np.random.default_rng(sub))
+            hist.judge_history(ctx, "C03", c, np.random.default_rng(sub + 7), *history_io(c))
         else:
             c = make_2d_uniform(rng)
             c["_sub"] = sub
@@ -232,6 +243,9 @@ def replay(ctx, case):
         ms.call_case(case)
         return
     g = case["gen"]
+    if "history" in case:
+        hist.run_history(ctx, "C03", g, case["history"], *history_io(g))
+        return
     definitions(ctx, g, np.random.default_rng(int(g["_sub"])))
     if g.get("_mode") == "meta":
         metamorphic(ctx, g, np.random.default_rng(int(g["_sub"])), bool(g.get("_allk")))
